@@ -30,8 +30,18 @@ def symmap(inp, items=()):
         from crosshair.core import NoTracing
         from crosshair.simplestructs import ShellMutableMap, SimpleDict
 
+        class SymMap(ShellMutableMap):
+            """+ dict's rule that the size must not change while it is being iterated"""
+
+            def __iter__(self):
+                n = len(self)
+                for k in ShellMutableMap.__iter__(self):
+                    yield k
+                    if len(self) != n:
+                        raise RuntimeError("dictionary changed size during iteration")
+
         with NoTracing():
-            m = ShellMutableMap(SimpleDict([]))
+            m = SymMap(SimpleDict([]))
         for k, v in items:
             m[k] = v
         return m
